@@ -122,6 +122,9 @@ func injectLoops(repo, rel string, items []*Item, warn func(string)) (map[string
 				if dec == "" {
 					dec = "0"
 				}
+				if strings.TrimSpace(dec) == "*" {
+					dec = "-1" // partial correctness only: no termination obligation
+				}
 				mentionsIdx := strings.Contains(strings.Join(ls.Invariants, " ")+" "+dec, "idx_")
 				switch l := loops[ord].(type) {
 				case *ast.ForStmt:
@@ -145,7 +148,11 @@ func injectLoops(repo, rel string, items []*Item, warn func(string)) (map[string
 					}
 				}
 				p := fset.Position(body.Lbrace).Offset + 1
-				text := fmt.Sprintf(" verifspec.LoopInv(%d, func() bool { return %s }, func() int { return %s }); ", ord, strings.Join(invs, " && "), desugar(dec))
+				ordArg := ord
+				if it.Options["localinv"] != "" {
+					ordArg += 1000 // the invariant is used only by the function's own contract; other harnesses unroll the loop
+				}
+				text := fmt.Sprintf(" verifspec.LoopInv(%d, func() bool { return %s }, func() int { return %s }); ", ordArg, strings.Join(invs, " && "), desugar(dec))
 				edits = append(edits, edit{off: p, end: p, text: text})
 			}
 			for _, g := range it.Ghosts {
